@@ -161,6 +161,53 @@ def regenerate(gen1_source):
         shutil.rmtree(tmp, ignore_errors=True)
 
 
+def run_fuzz(seconds, fuzz_seed, with_corpus):
+    """One atheris session (tooling venv, separate process).  Returns (executions, [descriptions on
+    which gen0 and gen1 disagreed], note)."""
+    fuzzer = os.path.join(os.path.dirname(os.path.abspath(__file__)), 'c12_fuzz.py')
+    vt = '/opt/veriftools/pyvenv/bin/python'
+    if not os.path.exists(vt):
+        return 0, [], 'tooling venv not present'
+    tmp = tempfile.mkdtemp(prefix='vfc12f_')
+    try:
+        g1p = os.path.join(tmp, 'gen1.py')
+        with open(g1p, 'w') as f:
+            f.write(gen1()._source_code)
+        cdir = os.path.join(tmp, 'corpus')
+        os.makedirs(cdir)
+        if with_corpus:
+            for i, d in enumerate(corpus()):
+                if len(d) <= 400:
+                    with open(os.path.join(cdir, 'c%03d' % i), 'w', encoding='utf-8') as f:
+                        f.write(d)
+        out = os.path.join(tmp, 'out')
+        cmd = [vt, fuzzer, os.path.join(REPO, 'sourcer', 'parser.py'), g1p, out, cdir, '-max_total_time=%d' % seconds,
+               '-seed=%d' % (fuzz_seed or 1), '-max_len=400', '-print_final_stats=1', '-artifact_prefix=%s/' % tmp,
+               '-timeout=30', '-rss_limit_mb=4096']
+        env = {'PATH': '/usr/bin:/bin', 'PYTHONHASHSEED': '0'}
+        try:
+            r = subprocess.run(cmd, capture_output=True, text=True, timeout=seconds + 120, env=env, cwd=tmp)
+            log = r.stderr + r.stdout
+        except subprocess.TimeoutExpired as e:
+            log = (e.stderr or b'').decode('utf-8', 'replace') if isinstance(e.stderr, bytes) else (e.stderr or '')
+        m = re.search(r'stat::number_of_executed_units:\s*(\d+)', log)
+        execs = int(m.group(1)) if m else 0
+        if not m:
+            ms = re.findall(r'#(\d+)\s', log)
+            execs = int(ms[-1]) if ms else 0
+        found = []
+        if os.path.isdir(out):
+            for fn in sorted(os.listdir(out)):
+                with open(os.path.join(out, fn), encoding='utf-8') as f:
+                    found.append(f.read())
+        note = ''
+        if execs == 0:
+            note = 'fuzzer did not run: ' + log[-300:]
+        return execs, found, note
+    finally:
+        shutil.rmtree(tmp, ignore_errors=True)
+
+
 def first_difference(a, b):
     for i, (x, y) in enumerate(zip(a, b)):
         if x != y:
@@ -170,14 +217,17 @@ def first_difference(a, b):
 
 class C12(Check):
     id = 'C12'
-    technique = 'PBT/differential: 3-generation bootstrap (gen1 text == gen2 text) + gen0 vs gen1 on repository corpus, generated descriptions in all spellings and hypothesis-corrupted descriptions'
+    technique = 'PBT/differential: 3-generation bootstrap (gen1 text == gen2 text) + gen0 vs gen1 on repository corpus, generated descriptions in all spellings, hypothesis-corrupted descriptions and a coverage-guided atheris/libFuzzer differential target'
     rule = ('cases = grammar descriptions given to both the shipped parser (gen0) and the parser generated from grammar.txt by '
             'the current tree (gen1): (i) every description in the repository (tests, README, docs, examples, grammar.txt), '
             'extracted at run time; (ii) descriptions rendered by the generators in random spellings/layouts (rich grammars, '
             'core grammars, operator tables, grammar headers with extends); (iii) corrupted versions of (i)+(ii): 1-3 hypothesis-'
             'drawn edits (delete, insert punctuation/keyword, transpose, truncate, swap lines, duplicate or drop a span). Same '
             'repr(tree), or same error class at the same index. Plus the history gen0 -> gen1 -> gen2: gen1 parses grammar.txt, '
-            'gen1 installed in a scratch copy regenerates in a separate process to exactly its own text. Non-trivial iff the '
+            'gen1 installed in a scratch copy regenerates in a separate process to exactly its own text. (iv) coverage-guided '
+            'fuzzing: an atheris target (tooling venv) with the same differential oracle inside, seeded with the repository '
+            'corpus and with an empty corpus (quick: one 25 s session; thorough: 8 sessions of 7 min); its executions are '
+            'counted in evaluations but not in distinct_nontrivial. Non-trivial iff the '
             'description has >= 3 statement kinds, or is a corrupted one rejected at an index > 0; distinct by description text.')
     assumptions = ['gen0 vs gen1 is compared behaviourally, not textually (a refactoring of the generator may change the text of gen1)']
     budget_quick = 170
@@ -186,7 +236,9 @@ class C12(Check):
     def tasks(self, tier, seed):
         n = 15 if tier == 'quick' else 60
         per = 150 if tier == 'quick' else 1200
-        return [('bootstrap',)] + [('corpus',)] + [('hyp', seed * 1000003 + s, per) for s in range(n)]
+        fuzz = [('fuzz', 25, seed * 17 + 1, True)] if tier == 'quick' else \
+            [('fuzz', 420, seed * 17 + k, k % 2 == 0) for k in range(8)]
+        return [('bootstrap',)] + [('corpus',)] + fuzz + [('hyp', seed * 1000003 + s, per) for s in range(n)]
 
     def compare(self, res, desc, tag, corrupted=False):
         a = outcome(gen0(), desc)
@@ -211,6 +263,18 @@ class C12(Check):
             res.sample({'bootstrap': 'gen1 (%d bytes) regenerated through a scratch copy of the package' % len(g1._source_code)})
             if bad:
                 res.mismatch({'bootstrap': True})
+            return res
+        if task[0] == 'fuzz':
+            _, seconds, fseed, with_corpus = task
+            execs, found, note = run_fuzz(seconds, fseed, with_corpus)
+            res.evals += execs
+            res.hist['fuzz_executions'] += execs
+            res.hist['fuzz_sessions'] += 1
+            if note:
+                res.hist['fuzz_note_' + note[:60]] += 1
+            res.sample({'atheris_session_seconds': seconds, 'executions': execs, 'corpus': 'repository descriptions' if with_corpus else 'empty'})
+            for d in found:
+                res.mismatch({'desc': d})
             return res
         if task[0] == 'corpus':
             for d in corpus():
